@@ -138,7 +138,7 @@ class Case:
             self.rep["samples"].append(jsonable(obj))
 
     # ------------------------------------------------------------- obligations
-    def prove(self, path: Path | list, claim, label: str, replay=None, exclude: Iterable = (), extra=(), refine=()):
+    def prove(self, path: Path | list, claim, label: str, replay=None, exclude: Iterable = (), extra=(), refine=(), via=None):
         """Obligation: `claim` holds for every valuation satisfying the path condition.
         replay = (kind, builder) with builder(model)->json inputs for harness.REPLAY[kind].
         exclude = [(finding_id, region_formula)] known-finding regions."""
@@ -153,9 +153,16 @@ class Case:
         active = [(fid, as_z3_bool(reg)) for fid, reg in exclude if fid in self.known and self.known[fid].get("status", "open") == "open"]
         base = pc + list(extra)
         main = base + [z3.Not(claim)] + [z3.Not(reg) for _, reg in active]
-        r, m = solve(main, stats=self.stats, seed=self.seed)
+        if via is not None and self._prove_via(pc, claim, active, via):
+            rep["discharged"] += 1
+            rep["via_cuts"] = rep.get("via_cuts", 0) + 1
+            r, m = "unsat-via", None
+        else:
+            r, m = solve(main, stats=self.stats, seed=self.seed)
         verdict = None
-        if r == "unsat":
+        if r == "unsat-via":
+            verdict = "holds"
+        elif r == "unsat":
             rep["discharged"] += 1
             if z3.is_true(z3.simplify(claim)):
                 rep["ground"] += 1
@@ -187,6 +194,22 @@ class Case:
                     rep["known_findings"].append(dict(id=fid, label=label, inputs=inputs, detail=detail,
                                                       what=self.known[fid].get("what_fails", "")))
         return verdict
+
+    def _prove_via(self, pc, claim, active, via):
+        """cut-based decomposition: pc |- cut_i (each proved here), and hyps & cuts[t:=v] |- claim[t:=v] where the
+        terms t (e.g. predictions containing EXP) are abstracted by fresh variables v.  hyps must be assumptions that
+        are part of pc (the harness passes the domain predicate it assumed).  Sound: pc |- hyps, pc |- cuts."""
+        cuts, subst = via["cuts"], via["subst"]
+        # hypotheses of the abstract problem: the conjuncts of pc that do not mention an uninterpreted function
+        hyps = [c for c in pc if not _has_uf(c)]
+        for c in cuts:
+            r, _ = solve(pc + [z3.Not(c)], stats=self.stats, seed=self.seed, stages=(("default", 3000), ("qfnra-nlsat", 5000)))
+            if r != "unsat":
+                return False
+        sub = lambda f: z3.substitute(f, *subst)
+        goal = list(hyps) + [sub(c) for c in cuts] + [z3.Not(sub(claim))] + [z3.Not(sub(reg)) for _, reg in active]
+        r, _ = solve(goal, stats=self.stats, seed=self.seed, stages=(("default", 3000), ("qfnra-nlsat", 8000)))
+        return r == "unsat"
 
     def _second_opinion(self, forms):
         try:
@@ -394,6 +417,20 @@ def _cmp_struct(a, b, rel, abs_tol):
             return a == b, f"{a} vs {b}"
         return (abs(a - b) <= abs_tol + rel * max(abs(a), abs(b))), f"{a} vs {b}"
     return (a == b), f"{a!r} vs {b!r}"
+
+
+def _has_uf(e):
+    todo, seen = [e], set()
+    while todo:
+        t = todo.pop()
+        if t.get_id() in seen:
+            continue
+        seen.add(t.get_id())
+        if z3.is_app(t):
+            if t.decl().kind() == z3.Z3_OP_UNINTERPRETED and t.num_args() > 0:
+                return True
+            todo.extend(t.children())
+    return False
 
 
 def func_info(fn):
